@@ -87,7 +87,11 @@ func hostileAdmin(t *rapid.T, g *hgen) []byte {
 	if rapid.IntRange(0, 19).Draw(t, "hNoType") == 0 {
 		typ = ""
 	}
-	return ref.Assemble(ref.StdTags, "FIX.4.4", typ, toks)
+	out := ref.Assemble(ref.StdTags, "FIX.4.4", typ, toks)
+	if rapid.IntRange(0, 9).Draw(t, "hExtremeLen") == 0 {
+		out = ref.Relength(out, ref.StdTags, rapid.SampledFrom(ref.ExtremeLengths).Draw(t, "hDeclaredLen"))
+	}
+	return out
 }
 
 var extremeNumbers = []string{"-9223372036854775808", "9223372036854775807", "-4611686018427387904", "4611686018427387904", "-2147483648", "2147483647",
